@@ -330,3 +330,9 @@ package config
 //@ spec func rqValid(s RangeQuerySettings) bool = durParses(s.Max) && durOf(s.Max) != 0
 //@ func RangeQuerySettings.validate [C18]
 //@   ensures result == nil ==> rqValid(s)
+
+// C18 (discovery): the uri of a prometheusQuery discovery block is handed to promapi.NewPrometheus, whose requests
+// parse it with the error dropped (Prometheus.doRequest): it must parse when the configuration is loaded.
+//@ func PrometheusQuery.validate [C18]
+//@   ensures err == nil ==> urlParses(pq.URI)
+//@   loop 1 invariant urlParses(pq.URI)
